@@ -8,6 +8,8 @@
 (* atomic unlock+sleep, notify_one moves one waiter).                       *)
 (* Ghost: status of every event (ledger, C06), enqueues finished before an  *)
 (* emptyQueue call began (C11), lost wake-up as a state predicate (C07).    *)
+(* processIf (accepting odd events) puts the declined ones back in front;   *)
+(* defect "putback_end" puts them at the back (violates ProducerOrder).     *)
 (* Defects: "dqn_unlocked" = ~DisableQueueNotify decrements outside the     *)
 (* mutex (the code before the D5 repair); "empty_order" = emptyQueue reads  *)
 (* the counter before the list.                                             *)
@@ -17,13 +19,13 @@ EXTENDS Naturals, Sequences, FiniteSets, TLC
 CONSTANTS Threads, Scenarios, Defects
 Fixed(d) == d \notin Defects
 VARIABLES q, emptyCtr, notifyCtr, mtx, waitset, woken,        \* shared
-          prog, ip, pc, tmp, rd,                              \* per thread (rd = scratch for reads)
+          prog, ip, pc, tmp, rd,                              \* per thread (tmp = tempList, rd = events processIf keeps)
           status, enqDone, snap, bad, lastT                   \* ghost
 vars == <<q, emptyCtr, notifyCtr, mtx, waitset, woken, prog, ip, pc, tmp, rd, status, enqDone, snap, bad, lastT>>
 Events == 1..3
 Init == /\ q = <<>> /\ emptyCtr = 0 /\ notifyCtr = 0 /\ mtx = 0 /\ waitset = {} /\ woken = {}
         /\ prog \in Scenarios /\ ip = [t \in Threads |-> 1] /\ pc = [t \in Threads |-> "idle"]
-        /\ tmp = [t \in Threads |-> <<>>] /\ rd = [t \in Threads |-> 0]
+        /\ tmp = [t \in Threads |-> <<>>] /\ rd = [t \in Threads |-> <<>>]
         /\ status = [e \in Events |-> "new"] /\ enqDone = {} /\ snap = [t \in Threads |-> {}] /\ bad = "ok" /\ lastT = 0
 Op(t) == prog[t][ip[t]]
 HasOp(t) == ip[t] <= Len(prog[t])
@@ -41,7 +43,8 @@ Start(t) ==
   /\ pc[t] = "idle" /\ HasOp(t)
   /\ Goto(t, CASE Op(t).k = "enq" -> "e_lock" [] Op(t).k = "dqn_on" -> "d_inc" [] Op(t).k = "dqn_off" -> (IF Fixed("dqn_unlocked") THEN "d_lock" ELSE "d_dec")
                [] Op(t).k = "process" -> "p_pre" [] Op(t).k = "processOne" -> "p_pre" [] Op(t).k = "take" -> "t_pre"
-               [] Op(t).k = "clear" -> "c_pre" [] Op(t).k = "empty" -> "o_q" [] Op(t).k = "wait" -> "w_lock")
+               [] Op(t).k = "clear" -> "c_pre" [] Op(t).k = "empty" -> "o_q" [] Op(t).k = "wait" -> "w_lock"
+               [] Op(t).k = "processIf" -> "i_pre" [] Op(t).k = "peek" -> "k_pre")
   /\ snap' = [snap EXCEPT ![t] = IF Op(t).k = "empty" THEN enqDone ELSE @]
   /\ UNCHANGED <<q, emptyCtr, notifyCtr, mtx, waitset, woken, prog, ip, tmp, rd, status, enqDone, bad>>
 
@@ -99,6 +102,36 @@ CPre(t) == /\ pc[t] = "c_pre" /\ IF q = <<>> THEN Done(t) ELSE (Goto(t, "c_lock"
 CLock(t) == pc[t] = "c_lock" /\ mtx = 0 /\ mtx' = t /\ Goto(t, "c_cs") /\ UNCHANGED <<q, emptyCtr, notifyCtr, waitset, woken, prog, ip, tmp, rd>> /\ UNCHANGED Gh
 CCs(t) == /\ pc[t] = "c_cs" /\ mtx = t /\ mtx' = 0 /\ q' = <<>> /\ status' = SetStatus(Range(q), "cleared")
           /\ Done(t) /\ UNCHANGED <<emptyCtr, notifyCtr, waitset, woken, prog, tmp, rd, enqDone, snap, bad>>
+\* ---- processIf(odd events): pre-check; guard++; lock; take all; unlock; per event: predicate, dispatch or keep; lock; put the kept ones
+\*      back in FRONT; unlock; guard--
+IPre(t) == /\ pc[t] = "i_pre" /\ IF q = <<>> THEN Done(t) ELSE (Goto(t, "i_inc") /\ UNCHANGED ip)
+           /\ UNCHANGED Sh /\ UNCHANGED <<prog, tmp, rd>> /\ UNCHANGED Gh
+IInc(t) == pc[t] = "i_inc" /\ emptyCtr' = emptyCtr + 1 /\ Goto(t, "i_lock") /\ UNCHANGED <<q, notifyCtr, mtx, waitset, woken, prog, ip, tmp, rd>> /\ UNCHANGED Gh
+ILock(t) == pc[t] = "i_lock" /\ mtx = 0 /\ mtx' = t /\ Goto(t, "i_cs") /\ UNCHANGED <<q, emptyCtr, notifyCtr, waitset, woken, prog, ip, tmp, rd>> /\ UNCHANGED Gh
+ICs(t) == /\ pc[t] = "i_cs" /\ mtx = t /\ mtx' = 0 /\ tmp' = [tmp EXCEPT ![t] = q] /\ rd' = [rd EXCEPT ![t] = <<>>] /\ q' = <<>>
+          /\ status' = SetStatus(Range(q), "held") /\ Goto(t, "i_loop")
+          /\ UNCHANGED <<emptyCtr, notifyCtr, waitset, woken, prog, ip, enqDone, snap, bad>>
+ILoop(t) == /\ pc[t] = "i_loop"
+            /\ IF tmp[t] = <<>> THEN Goto(t, IF rd[t] = <<>> THEN "i_dec" ELSE "i_pblock") /\ UNCHANGED <<tmp, rd, status, bad>>
+               ELSE LET e == Head(tmp[t]) IN
+                    IF e % 2 = 1
+                    THEN /\ bad' = IF status[e] # "held" THEN "double-consume" ELSE bad
+                         /\ status' = SetStatus({e}, "dispatched") /\ tmp' = [tmp EXCEPT ![t] = Tail(@)] /\ UNCHANGED <<pc, rd>>
+                    ELSE tmp' = [tmp EXCEPT ![t] = Tail(@)] /\ rd' = [rd EXCEPT ![t] = Append(@, e)] /\ UNCHANGED <<pc, status, bad>>
+            /\ UNCHANGED Sh /\ UNCHANGED <<prog, ip, enqDone, snap>>
+IPbLock(t) == pc[t] = "i_pblock" /\ mtx = 0 /\ mtx' = t /\ Goto(t, "i_pb") /\ UNCHANGED <<q, emptyCtr, notifyCtr, waitset, woken, prog, ip, tmp, rd>> /\ UNCHANGED Gh
+IPb(t) == /\ pc[t] = "i_pb" /\ mtx = t /\ mtx' = 0
+          /\ q' = (IF Fixed("putback_end") THEN rd[t] \o q ELSE q \o rd[t]) /\ status' = SetStatus(Range(rd[t]), "pending") /\ rd' = [rd EXCEPT ![t] = <<>>]
+          /\ Goto(t, "i_dec") /\ UNCHANGED <<emptyCtr, notifyCtr, waitset, woken, prog, ip, tmp, enqDone, snap, bad>>
+IDec(t) == pc[t] = "i_dec" /\ emptyCtr' = emptyCtr - 1 /\ Done(t) /\ UNCHANGED <<q, notifyCtr, mtx, waitset, woken, prog, tmp, rd>> /\ UNCHANGED Gh
+\* ---- peekEvent: unlocked pre-check; lock; look at the head; unlock
+KPre(t) == /\ pc[t] = "k_pre" /\ IF q = <<>> THEN Done(t) ELSE (Goto(t, "k_lock") /\ UNCHANGED ip)
+           /\ UNCHANGED Sh /\ UNCHANGED <<prog, tmp, rd>> /\ UNCHANGED Gh
+KLock(t) == pc[t] = "k_lock" /\ mtx = 0 /\ mtx' = t /\ Goto(t, "k_cs") /\ UNCHANGED <<q, emptyCtr, notifyCtr, waitset, woken, prog, ip, tmp, rd>> /\ UNCHANGED Gh
+KCs(t) == /\ pc[t] = "k_cs" /\ mtx = t /\ mtx' = 0 /\ Done(t)
+          /\ bad' = IF q # <<>> /\ status[Head(q)] # "pending" THEN "peek-not-pending" ELSE bad
+          /\ UNCHANGED <<q, emptyCtr, notifyCtr, waitset, woken, prog, tmp, rd, status, enqDone, snap>>
+
 \* ---- emptyQueue(): queueList.empty() && emptyCtr == 0  (order matters)
 Verdict(t, r) == bad' = IF r /\ ~(\A e \in snap[t] : Consumed(e)) THEN "empty-while-pending" ELSE bad
 OFirst(t) == /\ pc[t] = "o_q"
@@ -126,17 +159,23 @@ Step(t) == Start(t) \/ ELock(t) \/ ECs(t) \/ NQ(t) \/ NEc(t) \/ NCnt(t) \/ NNoti
            \/ PPre(t) \/ PInc(t) \/ PLock(t) \/ PCs(t) \/ PDisp(t) \/ PDec(t)
            \/ TPre(t) \/ TLock(t) \/ TCs(t) \/ CPre(t) \/ CLock(t) \/ CCs(t)
            \/ OFirst(t) \/ OSecond(t)
+           \/ IPre(t) \/ IInc(t) \/ ILock(t) \/ ICs(t) \/ ILoop(t) \/ IPbLock(t) \/ IPb(t) \/ IDec(t) \/ KPre(t) \/ KLock(t) \/ KCs(t)
            \/ WLock(t) \/ WQ(t) \/ WEc(t) \/ WCnt(t) \/ WBlock(t) \/ WWake(t) \/ WUnlock(t)
 Next == (\E t \in Threads : Step(t) /\ lastT' = t) /\ UNCHANGED prog
 
 \* ---- properties
 Ledger == bad = "ok"                                                       \* C06 no double consume, C11 implication
 OnePlace == \A e \in Events : /\ (status[e] = "pending") = (\E i \in 1..Len(q) : q[i] = e)
-                              /\ (status[e] = "held") = (\E t \in Threads : \E i \in 1..Len(tmp[t]) : tmp[t][i] = e)
+                              /\ (status[e] = "held") = (\E t \in Threads : (\E i \in 1..Len(tmp[t]) : tmp[t][i] = e) \/ (\E i \in 1..Len(rd[t]) : rd[t][i] = e))
 Quiescent == \A t \in Threads : (pc[t] = "idle" /\ ~HasOp(t)) \/ pc[t] = "w_sleep"
 Sleeping == {t \in Threads : pc[t] = "w_sleep"}
 \* C07: a final state with pending events, notification enabled and every waiter asleep is a lost wake-up
 NoLostWakeup == ~(Quiescent /\ Sleeping # {} /\ woken = {} /\ q # <<>> /\ notifyCtr = 0)
+\* one producer's events are pending in the order it enqueued them (C06 order), for every producer
+EnqIdx(t, e) == IF \E i \in 1..Len(prog[t]) : prog[t][i].k = "enq" /\ prog[t][i].e = e
+                THEN CHOOSE i \in 1..Len(prog[t]) : prog[t][i].k = "enq" /\ prog[t][i].e = e ELSE 0
+ProducerOrder == \A t \in Threads : \A i, j \in 1..Len(q) :
+                    (i < j /\ EnqIdx(t, q[i]) # 0 /\ EnqIdx(t, q[j]) # 0) => EnqIdx(t, q[i]) < EnqIdx(t, q[j])
 \* stuck for any other reason (mutex never released) would show as a non-quiescent state without successors
 NoDeadlock == Quiescent \/ ENABLED Next
 =============================================================================
